@@ -241,3 +241,53 @@ def sched_tree_program(rng, nvars=5):
     for _ in range(rng.randint(1, 2)):
         goals.append(["eq", ["list", [atom(), atom()]], ["list", [atom(), atom()]]])
     return goals, nvars
+
+
+# --------------------------------------------------------------------------- CLP(FD) / CLP(Z)
+
+def fd_domain(rng, lo, hi):
+    r = rng.random()
+    if r < 0.55:
+        a = rng.randint(lo, hi)
+        b = rng.randint(a, min(hi, a + 4))
+        return ["itv", a, b]
+    vals = [rng.randint(lo, hi) for _ in range(rng.randint(1, 4))]
+    return ["vec", vals]
+
+
+def fd_operand(rng, vs, lo, hi, p_const=0.25):
+    if rng.random() < p_const:
+        return ["num", rng.randint(lo, hi)]
+    return var(rng.choice(vs))
+
+
+def fd_constraint(rng, vs, lo, hi):
+    k = rng.choice(["ltefd", "ltfd", "neqfd", "plusfd", "minusfd", "timesfd", "plusfd", "timesfd", "distinctfd"])
+    o = lambda: fd_operand(rng, vs, max(lo, -3), min(hi, 3))
+    if k in ("ltefd", "ltfd", "neqfd"):
+        return [k, o(), o()]
+    if k == "distinctfd":
+        n = rng.randint(2, min(4, len(vs) + 1))
+        return [k, ["list", [o() for _ in range(n)]]]
+    return [k, o(), o(), o()]
+
+
+def fd_program(rng, nvars, ncons, lo, hi, n_eq=1):
+    """Every variable gets a domain (well-formed for labelling); goals in random order."""
+    vs = list(range(1, nvars + 1))
+    goals = [["dom", var(v), fd_domain(rng, lo, hi)] for v in vs]
+    if nvars >= 2 and rng.random() < 0.3:
+        goals = [["dom", ["list", [var(v) for v in vs[:2]]], fd_domain(rng, lo, hi)]] + goals[2:]
+    goals += [fd_constraint(rng, vs, lo, hi) for _ in range(ncons)]
+    for _ in range(rng.randint(0, n_eq)):
+        r = rng.random()
+        if r < 0.4 and nvars >= 2:
+            a, b = rng.sample(vs, 2)
+            goals.append(["eq", var(a), var(b)])
+        elif r < 0.7:
+            goals.append(["eq", var(rng.choice(vs)), ["num", rng.randint(lo, hi)]])
+        elif nvars >= 2:
+            a, b = rng.sample(vs, 2)
+            goals.append(["eq", ["list", [var(a), var(b)]], ["list", [var(b), ["num", rng.randint(lo, hi)]]]])
+    rng.shuffle(goals)
+    return goals
